@@ -62,7 +62,8 @@ def cons_json(c):
     elif vn == "foreign_key_constraint":
         kind = "foreignkey"
         el = c.elements
-        body = "%s>%s|%s|%s|%s" % (",".join(c.column_keys), ",".join(e.target_fullname for e in el), c.onupdate, c.ondelete, c.match)
+        body = "%s>%s|%s|%s|%s|%s" % (",".join(c.column_keys), ",".join(e.target_fullname for e in el), c.onupdate, c.ondelete,
+                                      c.match, bool(c.use_alter))
     elif vn == "primary_key_constraint":
         kind, body = "primary", ",".join(col.name for col in c.columns)
     else:
@@ -198,9 +199,20 @@ def view_of(j):
 
 # ------------------------------------------------------------------ SQL per dialect
 
+NAMING = {"ix": "ix_%(column_0_label)s", "uq": "uq_%(table_name)s_%(column_0_name)s", "ck": "ck_%(table_name)s_%(constraint_name)s",
+          "fk": "fk_%(table_name)s_%(column_0_name)s_%(referred_table_name)s", "pk": "pk_%(table_name)s"}
+# the five dialects, plus one context whose target_metadata carries a naming convention (SchemaObjects.metadata
+# then builds every to_table()/to_constraint() object under that convention)
+SQL_CONTEXTS = DIALECTS + ["postgresql+naming_convention"]
+
+
 def sql_of(op, dialect):
     buf = io.StringIO()
-    ctx = MigrationContext.configure(dialect_name=dialect, opts={"as_sql": True, "output_buffer": buf})
+    opts = {"as_sql": True, "output_buffer": buf}
+    if dialect.endswith("+naming_convention"):
+        dialect = dialect.split("+")[0]
+        opts["target_metadata"] = sa.MetaData(naming_convention=NAMING)
+    ctx = MigrationContext.configure(dialect_name=dialect, opts=opts)
     with warnings.catch_warnings():
         warnings.simplefilter("ignore")
         try:
@@ -260,9 +272,11 @@ def gen_table(rng, with_cons=True):
     if with_cons and rng.random() < 0.3:
         args.append(sa.CheckConstraint("%s > 0" % sa.sql.quoted_name(names[0], True) if " " not in names[0] else "1 = 1", name=rng.choice([None, "ck_1"])))
     if with_cons and rng.random() < 0.3:
-        args.append(sa.ForeignKeyConstraint([names[-1]], ["other.id"], name=rng.choice([None, "fk_1"]),
-                                            ondelete=rng.choice([None, "CASCADE"])))
-        sa.Table("other", md, sa.Column("id", sa.Integer, primary_key=True))
+        fsch = rng.choice([None, None, "s3"])      # schema-qualified referent: "s3.other.id"
+        args.append(sa.ForeignKeyConstraint([names[-1]], ["%sother.id" % (fsch + "." if fsch else "")],
+                                            name=rng.choice([None, "fk_1"]), ondelete=rng.choice([None, "CASCADE"]),
+                                            match=rng.choice([None, None, "FULL"]), initially=rng.choice([None, None, "DEFERRED"])))
+        sa.Table("other", md, sa.Column("id", sa.Integer, primary_key=True), schema=fsch)
     kw = gen_table_kw(rng)
     if kw.get("sqlite_with_rowid") is False and not any(c.primary_key for c in cols):
         args[0] = cols[0] = sa.Column(names[0], sa.Integer, primary_key=True)   # WITHOUT ROWID needs a primary key
@@ -420,11 +434,23 @@ def gen_leaf(rng, lossy_p=0.12):
             kw["source_schema"] = sc
         if rng.random() < 0.2:
             kw["referent_schema"] = "s3"
+        if rng.random() < 0.15:
+            kw["initially"] = rng.choice(["DEFERRED", "IMMEDIATE"])
+        if rng.random() < 0.15:
+            kw["match"] = rng.choice(["FULL", "SIMPLE"])
+        if rng.random() < 0.15:
+            kw["use_alter"] = rng.random() < 0.7
+        if rng.random() < 0.15:
+            # self-referential: source and referent are the same table (schemaobj.foreign_key_constraint builds one Table)
+            kw["referent_schema"] = sc
+            return ops.CreateForeignKeyOp(rng.choice([None, "fk_self"]), tn, tn, ["b"], ["id"], **kw)
         return ops.CreateForeignKeyOp(rng.choice([None, "fk_x"]), tn, "other", [rng.choice(COLS)], ["id"], **kw)
     if kind == "addCheck":
         kw = {}
         if lossy:
             kw["deferrable"] = True
+        if rng.random() < 0.15:
+            kw["initially"] = rng.choice(["DEFERRED", "IMMEDIATE"])
         return ops.CreateCheckConstraintOp(rng.choice([None, "ck_x"]), tn, rng.choice(["a > 0", "b <> 'q'"]), schema=sc, **kw)
     if kind == "addPk":
         return ops.CreatePrimaryKeyOp(rng.choice([None, "pk_x"]), tn, rng.sample(COLS, rng.choice([1, 2])), schema=sc)
